@@ -50,6 +50,14 @@ class LineEval(SymEval):
     def rec(self, label, val, node, st):
         self.records.setdefault(label, []).append((val, node, st))
 
+    def ev_Subscript(self, e, st):
+        # m['offset'] / m['length'] read directly (validated at the source, rule TJ1) denote
+        # the same numbers as json_get(m, 'offset', int)
+        if isinstance(e.ctx, ast.Load) and isinstance(e.slice, ast.Constant) and e.slice.value in ('offset', 'length') \
+                and isinstance(e.value, ast.Name) and 'cont' not in e.value.id and unparse(e) not in st.vars:
+            return Int(OFF if e.slice.value == 'offset' else LEN)
+        return super().ev_Subscript(e, st)
+
     def ev_Call(self, e, st):
         if _is_json_get(self.model, e) and len(e.args) >= 3 and isinstance(e.args[1], ast.Constant):
             self.ev(e.args[0], st)
